@@ -61,7 +61,7 @@ func genRecords(t *rapid.T, label string, max int) [][]byte {
 func TestC05(t *testing.T) {
 	rec := ev.Get("C05")
 	rec.Rule("syntactically valid ClientHellos without an acceptable ECH: no ECH / GREASE ECH (random or matching id and suite; enc usually 32 bytes, sometimes of a length or value the KEM refuses) / authentic ECH to a key the server lacks / ECH present but TLS 1.3 not offered / no extension block / empty block; sizes to 16 KiB; key sets none, unrelated, same-id; followed by 0..5 arbitrary records each way. Oracle: bytes read from Conn == bytes sent (record version of the hello excepted), bytes written reach the client unchanged, ServerName/ALPN == harness decoder == crypto/tls ClientHelloInfo. distinct = hello hash; non-trivial = unknown extension type, GREASE ECH or no TLS 1.3")
-	rec.Mandatory("odd_legacy_version", "kind:no_ech", "kind:grease", "kind:grease_matching_id", "kind:foreign_key", "kind:no_tls13_with_ech", "kind:no_ext_block", "kind:empty_ext_block", "size_ge12k", "tls10_only", "keys:none", "keys:unrelated", "keys:same_id", "tls_oracle_used", "enc_unusable_for_kem", "no_tls13_high_legacy_version", "other_connection_accepted_before_first_read", "record_filled_to_the_limit")
+	rec.Mandatory("odd_legacy_version", "kind:no_ech", "kind:grease", "kind:grease_matching_id", "kind:foreign_key", "kind:no_tls13_with_ech", "kind:no_ext_block", "kind:empty_ext_block", "size_ge12k", "tls10_only", "keys:none", "keys:unrelated", "keys:same_id", "tls_oracle_used", "enc_unusable_for_kem", "no_tls13_high_legacy_version", "other_connection_accepted_before_first_read", "record_filled_to_the_limit", "payload_not_longer_than_a_tag")
 	rapid.Check(t, func(t *rapid.T) {
 		pub := hello.GenName(t, "public_name", 253)
 		key := drawKey(t, "key", -1, pub)
@@ -84,7 +84,12 @@ func TestC05(t *testing.T) {
 				enc = make([]byte, 32)
 				cl0 = append(cl0, "enc_unusable_for_kem")
 			}
-			return hello.ECHOuterExt(s.KDF, s.AEAD, id, enc, hello.GenBytes(t, "g_payload", rapid.IntRange(17, 400).Draw(t, "g_plen")))
+			plen := rapid.IntRange(17, 400).Draw(t, "g_plen")
+			if rapid.IntRange(0, 4).Draw(t, "g_short_payload") == 0 {
+				plen = rapid.IntRange(1, 16).Draw(t, "g_plen_short") // shorter than, or exactly, an AEAD tag
+				cl0 = append(cl0, "payload_not_longer_than_a_tag")
+			}
+			return hello.ECHOuterExt(s.KDF, s.AEAD, id, enc, hello.GenBytes(t, "g_payload", plen))
 		}
 		keysKind := []string{"none", "unrelated", "same_id"}[uniform(t, "keyskind", 3)]
 		switch kind {
